@@ -124,6 +124,8 @@ def run(ck: Check) -> None:
     if files:
         from .common import rule_one_shot_iterators
         ck.run("RX.3", "values the rules read as sequences are not half-consumed iterators", lambda: rule_one_shot_iterators(ck, "RX.3", files))
+        from .common import rule_decorators_followed
+        ck.run("RX.5", "nothing wrapped around a function changes what its definition says", lambda: rule_decorators_followed(ck, "RX.5", files))
 
 
 # files a property depends on beyond its anchors (found when a breaking change there was reported by another property only)
